@@ -182,6 +182,10 @@ def opsSolver (op : String) (ins outs : List String) : Option String :=
     | none =>
     if !square && Verdict.certifiedSplit eqs e u vars 3 then
       pure "ok solution under-constrained exactly-one-zero-certified parameter-ranges-subdivided" else
+    -- the same certificates evaluated with EXACT rational interval arithmetic (sharp on boxes a few ulps wide)
+    match Verdict.findCertX eqs e u vars 3 with
+    | some k => pure s!"ok solution {if square then "square" else "under-constrained"} exactly-one-zero-certified exact-arithmetic shrink={k}"
+    | none =>
     let uniq := Box.subset e u && Newton.uniqueCertVars eqs u vars
     let exKnown := zs.any fun p => Verdict.ratZero eqs p && Verdict.ratIn p e
     let tagU := if uniq then "uniqueness-certified" else "uniqueness-uncertified"
